@@ -702,6 +702,46 @@ def F44():
         return f"a point whose strings are members of a str-mixin enum (text 'on') reads back from CSV as {got}"
 
 
+def F45():
+    d = tempfile.mkdtemp()
+    os.makedirs(os.path.join(d, "real", "sub"))
+    os.makedirs(os.path.join(d, "work"))
+    os.symlink(os.path.join(d, "real", "sub"), os.path.join(d, "work", "link"))
+    path = os.path.join(d, "work", "link", "..", "db.csv")          # the kernel: d/real/db.csv; os.path.abspath: d/work/db.csv
+    db = TinyFlux(path)
+    db.insert(Point(time=T0, tags={"a": "1"}))
+    db.insert(Point(time=T0, tags={"a": "2"}))
+    db.remove(TagQuery().a == "1")
+    db.close()
+    got = [dict(p.tags) for p in TinyFlux(path).all()]
+    if got != [{"a": "2"}] or os.path.exists(os.path.join(d, "work", "db.csv")):
+        return f"opened as work/link/../db.csv (work/link -> real/sub), after remove(a == '1') the file opened holds {got}; work/db.csv exists: {os.path.exists(os.path.join(d, 'work', 'db.csv'))}"
+
+
+def F46():
+    """newline= other than '' / '\n' (a documented constructor argument, handed to open()): line breaks inside strings are translated"""
+    out = []
+    for nl in (None, "\r\n"):
+        d = tempfile.mkdtemp()
+        path = os.path.join(d, "db.csv")
+        db = TinyFlux(path, newline=nl)
+        db.insert(Point(time=T0, tags={"a": "x\ry\nz"}))
+        db.close()
+        got = TinyFlux(path, newline=nl).all()[0].tags["a"]
+        if got != "x\ry\nz":
+            out.append(f"newline={nl!r}: 'x\\ry\\nz' reads back as {got!r}")
+    return "; ".join(out) or None
+
+
+def F47():
+    """test(func, *args): arguments that compare equal but are different values (1 / True / 1.0, 0.0 / -0.0) give EQUAL queries that a function can tell apart"""
+    f = lambda v, a: type(a).__name__ == "int"
+    q1, q2 = FieldQuery().x.test(f, 1), FieldQuery().x.test(f, 1.0)
+    p = Point(time=T0, fields={"x": 1})
+    if q1 == q2 and q1(p) != q2(p):
+        return f"FieldQuery().x.test(f, 1) == FieldQuery().x.test(f, 1.0) and hash alike, but answer {q1(p)} and {q2(p)} on the same point (f looks at the type of its argument)"
+
+
 ALL = [k for k in list(globals()) if re.fullmatch(r"F\d+[a-c]?", k)]
 
 if __name__ == "__main__":
